@@ -123,7 +123,22 @@ impl Object for Font {
         };
         let _other = dict.clone();
         let data = match subtype {
-            FontType::Type0 => FontData::Type0(Type0Font::from_dict(dict, resolve)?),
+            FontType::Type0 => {
+                // /DescendantFonts is a one-element array and only its first element is ever used.
+                // Loading further elements would let composite fonts nested in composite fonts fan
+                // out: 2^n loads for n objects when nothing is cached.
+                if let Some(p) = dict.remove("DescendantFonts") {
+                    let p = match t!(p.resolve(resolve)) {
+                        Primitive::Array(mut list) => {
+                            list.truncate(1);
+                            Primitive::Array(list)
+                        }
+                        p => p
+                    };
+                    dict.insert("DescendantFonts", p);
+                }
+                FontData::Type0(Type0Font::from_dict(dict, resolve)?)
+            }
             FontType::Type1 => FontData::Type1(TFont::from_dict(dict, resolve)?),
             FontType::TrueType => FontData::TrueType(TFont::from_dict(dict, resolve)?),
             FontType::CIDFontType0 => FontData::CIDFontType0(CIDFont::from_dict(dict, resolve)?),
